@@ -176,6 +176,49 @@ CLAIMS = {
         "behaviour of assume_init_ref/mut, write_clone_of_slice, split_off*.",
         ref="DESIGN.md §5 C18",
     ),
+    "C16": dict(
+        category="other",
+        engine="cargo+mirdump+rules",
+        technique="sibling cross-check: event skeletons (ordered in-crate calls with argument/return provenance) of the "
+        "embedded-io and embedded-io-async impls vs the std::io impls modulo a reviewed renaming, on optimized MIR and "
+        "on pre-transform (mir_built) MIR of the async bodies; Yield/coroutine-state analysis; build matrix",
+        text="Static decision that each embedded-io(-async) method performs the same in-crate effects with the same "
+        "argument provenance and returns the same value provenance as the corresponding std::io method (10 sibling "
+        "comparisons), that async write/flush/fill_buf contain no suspension point and read awaits only the &[u8] reader "
+        "whose coroutine has no suspension state (so never Pending), that the error type is Infallible, that no modulus/"
+        "index by capacity zero is reachable from these entries, and that all feature combinations build. Behaviour of "
+        "the std impls themselves is C14.",
+        note="[twin] rule: a behaviour-preserving rewrite of one sibling would also be reported. Trusted: the external "
+        "&[u8] readers of embedded-io 0.6.1 / embedded-io-async 0.6.1 (pinned in Cargo.lock, checked) agree with std's.",
+        ref="DESIGN.md §5 C16",
+    ),
+    "C19": dict(
+        category="other",
+        technique="taint-style provenance rule for position values over MIR (POS1), REQUIRES propagation for moduli "
+        "(MOD1), callee/constant table for size/alignment inspection (ZST1), store-shape rules for lengths (LEN1)",
+        text="Static decision that position arithmetic is confined to add_mod/sub_mod (no raw start+i / offset+k / pos*k "
+        "elsewhere — the construct that overflows for positions near N near usize::MAX), that their modulus is never "
+        "zero, that element size/alignment/needs_drop is never inspected (zero-sized element types take the same paths "
+        "as any other), and that lengths are only stepped by one or assigned bounded values and never scaled. Not "
+        "decided: the number theory of add_mod's overflow compensation; underflow of N-1, N-index-1, M-size.",
+        note="Value-level arithmetic correctness of add_mod itself is not decided by this family.",
+        ref="DESIGN.md §5 C19",
+    ),
+    "C20": dict(
+        category="other",
+        technique="effect analysis over the resolved call graph: loop/recursion detection and classification of "
+        "storage-mutating external callees (non-moving / constant / bulk; unclassified fails closed) in the transitive "
+        "closure of every O(1)-documented entry; closed table of bulk movers",
+        text="Static decision of the O(1) clause as an effect property: from no operation documented as constant-time "
+        "(38 entries, element destructors excluded) is a loop, recursion or bulk-relocating call reachable, for every N, "
+        "layout and argument; bulk relocation exists only in remove, Drain::drop, make_contiguous and From<[T;M]>, and "
+        "make_contiguous does not rotate unconditionally. Not decided: the linear bounds for remove/drain and the "
+        "correctness of make_contiguous's contiguity test.",
+        note="KNOWN LIMIT: defect F6 (make_contiguous rotates although contents are contiguous when they end exactly at "
+        "the array end; N=4,start=2,size=2) is a genuine violation of the statement's last sentence that this family "
+        "cannot decide; documented in DESIGN.md §3, neither reported nor suppressed by this check.",
+        ref="DESIGN.md §5 C20",
+    ),
 }
 
 
